@@ -36,7 +36,14 @@ def gz(n):
 
 CMP = {ast.Is: 'CIs', ast.IsNot: 'CIsNot', ast.Eq: 'CEq', ast.NotEq: 'CNe', ast.Lt: 'CLt', ast.LtE: 'CLe',
        ast.Gt: 'CGt', ast.GtE: 'CGe', ast.In: 'CIn', ast.NotIn: 'CNotIn'}
-BOP = {ast.Add: 'OAdd', ast.Sub: 'OSub'}
+BOP = {ast.Add: 'OAdd', ast.Sub: 'OSub', ast.Mult: 'OMul', ast.FloorDiv: 'OFloorDiv', ast.Mod: 'OMod',
+       ast.Div: 'ODiv'}
+# methods that change their receiver: translated to XMethod (receiver written back); every other method call is
+# XCallMethod (pure, through the primitives oracle as "call:<name>")
+MUTATORS = {'append', 'extend', 'add', 'pop', 'sort', 'reverse', 'clear', 'insert', 'remove', 'update',
+            'setdefault', 'discard', 'popitem'}
+EXC_KINDS = {'TypeError': 1, 'IndexError': 2, 'NameError': 3, 'ZeroDivisionError': 4, 'ValueError': 5,
+             'OverflowError': 6, 'AttributeError': 7, 'KeyError': 8, 'InvalidOperation': 9}
 
 
 class Refs:
@@ -188,8 +195,12 @@ class FuncTranslator:
                     tgt = self.target(e.func.value)
                 except Untranslatable:
                     tgt = None
-                if tgt is not None and not (isinstance(e.func.value, ast.Name) and e.func.value.id == self.self_name):
+                is_self = isinstance(e.func.value, ast.Name) and e.func.value.id == self.self_name
+                if tgt is not None and not is_self and e.func.attr in MUTATORS:
                     return (f'(XMethod {tgt} {gstr(e.func.attr + kwsuffix)} '
+                            f'{glist([self.expr(a) for a in e.args] + kwargs)})')
+                if not is_self and e.func.attr not in MUTATORS:
+                    return (f'(XCallMethod {self.expr(e.func.value)} {gstr(e.func.attr + kwsuffix)} '
                             f'{glist([self.expr(a) for a in e.args] + kwargs)})')
             if e.keywords:
                 raise Untranslatable('keyword arguments')
@@ -214,6 +225,8 @@ class FuncTranslator:
         if isinstance(e, ast.UnaryOp) and isinstance(e.op, ast.USub) and isinstance(e.operand, ast.Constant) \
                 and isinstance(e.operand.value, int):
             return self.const(-e.operand.value)
+        if isinstance(e, ast.UnaryOp) and isinstance(e.op, ast.USub):
+            return f'(XNeg {self.expr(e.operand)})'
         if isinstance(e, ast.BinOp) and type(e.op) in BOP:
             return f'(XBin {BOP[type(e.op)]} {self.expr(e.left)} {self.expr(e.right)})'
         if isinstance(e, ast.IfExp):
@@ -287,6 +300,23 @@ class FuncTranslator:
             return f'(SExpr {self.expr(s.value)})'
         if isinstance(s, ast.Pass):
             return 'SPass'
+        if isinstance(s, ast.Try) and not s.orelse and not s.finalbody and len(s.handlers) == 1 \
+                and s.handlers[0].name is None:
+            h = s.handlers[0]
+            if h.type is None:
+                kinds = []
+            else:
+                names = h.type.elts if isinstance(h.type, ast.Tuple) else [h.type]
+                kinds = []
+                for n in names:
+                    nm = n.attr if isinstance(n, ast.Attribute) else getattr(n, 'id', None)
+                    if nm == 'Exception':
+                        kinds = []
+                        break
+                    if nm not in EXC_KINDS:
+                        raise Untranslatable(f'exception class {nm}')
+                    kinds.append(str(EXC_KINDS[nm]))
+            return f'(STry {self.block(s.body)} {glist(kinds)} {self.block(h.body)})'
         raise Untranslatable(f'statement {ast.dump(s)[:100]}')
 
     def translate(self):
